@@ -16,7 +16,7 @@ import native
 import chars as C
 
 VERIF = engine.VERIF
-EVID = os.path.join(VERIF, 'evidence')
+EVID = os.environ.get('VERIF_EVIDENCE_DIR') or os.path.join(VERIF, 'evidence')   # seeded runs (tools/run_seed.sh) write elsewhere
 REPLAYS = os.path.join(VERIF, 'build', 'replays')
 KNOWN = os.path.join(VERIF, 'known_findings.json')
 
